@@ -119,6 +119,13 @@ type State struct {
 	chosen  map[string]int // named Choose decisions taken on this path
 	merged  bool    // passed a merge point (cannot be shipped to another worker)
 	abst    *absRec // abstractions (uninterpreted summaries) introduced on this path
+	// bounded thread model (threads.go); nil while the execution is sequential
+	threads   []*Thread
+	cur       int
+	preempts  int
+	threadsOn bool // errgroup.Go spawns threads (zzv.Threads)
+	preemptBound int
+	groups    map[string][]int // errgroup / WaitGroup key -> member thread ids
 }
 
 type absRec struct {
@@ -128,14 +135,12 @@ type absRec struct {
 
 func (s *State) top() *Frame { return s.frames[len(s.frames)-1] }
 
-func (s *State) clone() *State {
-	c := &cloner{memo: map[*Obj]*Obj{}}
-	n := &State{
-		pc: s.pc, nextObj: s.nextObj, clock: s.clock, nclock: s.nclock, forks: s.forks,
-		status: s.status, nOpaque: s.nOpaque, obs: s.obs, steps: s.steps, abst: s.abst, merged: s.merged, lockCount: s.lockCount,
+func (c *cloner) frames(fs []*Frame) []*Frame {
+	if fs == nil {
+		return nil
 	}
-	n.frames = make([]*Frame, len(s.frames))
-	for i, f := range s.frames {
+	out := make([]*Frame, len(fs))
+	for i, f := range fs {
 		nf := *f
 		nf.env = c.vals(f.env)
 		if f.defers != nil {
@@ -150,7 +155,30 @@ func (s *State) clone() *State {
 				nf.loops[k] = v
 			}
 		}
-		n.frames[i] = &nf
+		out[i] = &nf
+	}
+	return out
+}
+
+func (s *State) clone() *State {
+	c := &cloner{memo: map[*Obj]*Obj{}}
+	n := &State{
+		pc: s.pc, nextObj: s.nextObj, clock: s.clock, nclock: s.nclock, forks: s.forks,
+		status: s.status, nOpaque: s.nOpaque, obs: s.obs, steps: s.steps, abst: s.abst, merged: s.merged, lockCount: s.lockCount,
+	}
+	n.frames = c.frames(s.frames)
+	n.cur, n.preempts, n.threadsOn, n.preemptBound = s.cur, s.preempts, s.threadsOn, s.preemptBound
+	if s.threads != nil {
+		n.threads = make([]*Thread, len(s.threads))
+		for i, t := range s.threads {
+			n.threads[i] = t.clone(c)
+		}
+	}
+	if s.groups != nil {
+		n.groups = make(map[string][]int, len(s.groups))
+		for k, v := range s.groups {
+			n.groups[k] = append([]int(nil), v...)
+		}
 	}
 	n.globals = make(map[*ssa.Global]*Obj, len(s.globals))
 	for g, o := range s.globals {
